@@ -103,6 +103,15 @@ def run(ctx) -> None:
             ctx.check(not diff, "C14.H3.sequence-equals-fresh", f"operation {b} after {a}"[:150],
                       (diff[0] if diff else "")[:300],
                       "config values read, observers, objdump argv, regex calls and result equal those of the operation alone")
+    if ctx.tier == "thorough":
+        # every ordered pair of predecessors before every successor
+        import itertools
+        for (ai, a), (a2i, a2) in itertools.permutations(list(enumerate(preds)), 2):
+            for bi, b in enumerate(succs):
+                seq = summarise(run_sequence(Im, [a, a2, b]))
+                diff = sorted(seq ^ alone[bi])
+                ctx.check(not diff, "C14.H3.sequence-equals-fresh", f"operation #{bi} after predecessors #{ai},#{a2i}",
+                          (diff[0] if diff else "")[:300], "a successor after two other operations equals the successor alone")
     repeated_operation(ctx, "C14.H3.repeat-equals-first", Im)
     # H3b compile sequence
     y2r = ctx.p.find_class("Yaml2Regex")
